@@ -1,0 +1,7 @@
+//go:build !verif
+// +build !verif
+
+package spg
+
+// verifCanon is the identity unless built with -tags verif.
+func verifCanon(chars charList) charList { return chars }
